@@ -15,6 +15,9 @@ from polymath import Qube, Scalar, Vector, Vector3, Pair, Matrix, Matrix3, Quate
 
 ITEM = {'S': (), 'V2': (2,), 'V3': (3,), 'M2': (2, 2), 'M3': (3, 3), 'R3': (3, 3), 'Q': (4,)}
 LEAFCLS = {'S': Scalar, 'V2': Vector, 'V3': Vector3, 'M2': Matrix, 'M3': Matrix, 'Q': Quaternion}
+CLSNAME = {'Scalar': Scalar, 'Vector': Vector, 'Vector3': Vector3, 'Pair': Pair, 'Matrix': Matrix, 'Quaternion': Quaternion}
+# classes an operand of an item type may have (subclass / base class), objects and derivatives alike
+ALTCLS = {'V2': ['Vector', 'Pair'], 'V3': ['Vector3', 'Vector'], 'S': ['Scalar'], 'M2': ['Matrix'], 'M3': ['Matrix'], 'Q': ['Quaternion']}
 VN = {'V2': 2, 'V3': 3}
 MN = {'M2': 2, 'M3': 3, 'R3': 3}
 
@@ -263,7 +266,8 @@ def _make_leaf(node, keys, mode, disp=None):
     mask = False
     if node.get('mask') is not None:
         mask = np.array(node['mask'], dtype=bool).reshape(shape)
-    cls = LEAFCLS[node['t']]
+    cls = CLSNAME[node['cls']] if node.get('cls') else LEAFCLS[node['t']]
+    dcls = CLSNAME[node['dcls']] if node.get('dcls') else cls
     if mode == 'plain':
         if disp is not None and disp[0] in node['derivs']:
             key, j, h = disp
@@ -276,7 +280,7 @@ def _make_leaf(node, keys, mode, disp=None):
     for key, dv in node['derivs'].items():
         den = tuple(keys[key])
         d = np.array(dv, dtype=float).reshape(shape + item + oden + den)
-        obj.insert_deriv(key, cls(d, drank=len(oden) + len(den)))
+        obj.insert_deriv(key, dcls(d, drank=len(oden) + len(den)))
     return obj
 
 
